@@ -205,7 +205,7 @@ def run_tlc(pid, module, cfg=None, env=None, workers=8, timeout=600, simulate=No
     e["JAVA_TOOL_OPTIONS"] = jopts
     if env:
         e.update({k: str(v) for k, v in env.items()})
-    cmd = ["timeout", str(int(timeout)), "java", "-XX:+UseParallelGC", "-Xmx" + heap, "-cp", TLA_JAR,
+    cmd = ["timeout", str(int(timeout)), "java", "-Xss1g", "-XX:+UseParallelGC", "-Xmx" + heap, "-cp", TLA_JAR,
            "tlc2.TLC", "-workers", str(workers), "-metadir", meta, "-cleanup", "-noGenerateSpecTE",
            "-config", os.path.join(SPEC, cfg + ".cfg")]
     if coverage:
